@@ -121,6 +121,12 @@ def impl_case(case):
                 texts_back = [getattr(m, 'text', getattr(m, 'name', None)) for m in back.tracks[0] if m.is_meta and m.type != 'end_of_track']
                 if texts_back != list(texts):
                     fail = f'texts after save/load with {charset}: {texts_back!r} != {list(texts)!r}'
+                if fail is None:
+                    # the other way of opening the same file: clip=True is about data bytes of channel / sysex messages
+                    lenient = mido.MidiFile(file=io.BytesIO(bytes(blob)), charset=charset, clip=True)
+                    texts_l = [getattr(m, 'text', getattr(m, 'name', None)) for m in lenient.tracks[0] if m.is_meta and m.type != 'end_of_track']
+                    if texts_l != list(texts):
+                        fail = f'texts after save/load with {charset} (file opened with clip=True): {texts_l!r} != {list(texts)!r}'
         except Exception as e:
             events.append('err ' + exc_name(e))
             if fault is None and fail is None:
